@@ -5,5 +5,7 @@ CONSTANTS
   FailMax = 0
   MaxRuns = 2
   Modes = {"default", "csv", "tsv"}
-INVARIANTS ConfigIsThisRuns RunStartsFresh CloseOfNonReader SystemSeesFlushed NoExecConfines NoWritesConfines NoReadsConfines DeniedEndsRun TouchedAreOpened FileDelivered CmdDelivered StdoutDelivered FailingWriteFails OneNameOneStream CloseReportsStatus SeqScheduleAllowed LossNotAllowed AttemptIsDenied
+  NLs = {"smart"}
+  Rich = 0
+INVARIANTS ConfigIsThisRuns RunStartsFresh CloseOfNonReader SystemSeesFlushed NoExecConfines NoWritesConfines NoReadsConfines DeniedEndsRun TouchedAreOpened FileDelivered CmdDelivered StdoutDelivered FailingWriteFails OneNameOneStream CloseReportsStatus SeqScheduleAllowed LossNotAllowed AttemptIsDenied NullStaysEmpty OperandKinds OneSpelling CrlfEverywhere
 CHECK_DEADLOCK FALSE
